@@ -15,7 +15,7 @@ from .e1_srcmodel import dotted
 
 ELEMENTWISE = {"abs", "np.abs", "np.absolute", "np.sqrt", "np.exp", "np.cos", "np.sin", "np.cosh", "np.sinh", "np.log", "np.real", "np.imag",
                "np.conj", "np.sign", "np.isnan", "np.isfinite", "np.logical_not", "np.asarray", "np.atleast_1d", "np.copy", "np.negative",
-               "np.square", "np.arctan", "np.tan", "np.expm1", "np.log1p", "math.sqrt", "math.exp"}
+               "np.square", "np.arctan", "np.tan", "np.expm1", "np.log1p", "math.sqrt", "math.exp", "np.diag"}
 REDUCE = {"np.any", "np.all", "np.sum", "np.max", "np.min", "np.amax", "np.amin", "len", "np.count_nonzero", "np.mean", "np.prod", "np.size",
           "any", "all", "max", "min", "sum"}
 CTORS = {"np.zeros", "np.ones", "np.empty", "np.full"}
@@ -54,13 +54,16 @@ S = "scalar"
 
 
 class MaskTyper:
-    def __init__(self, params, sizes=None, report=None):
+    def __init__(self, params, sizes=None, report=None, passthrough=(), cond=None):
+        self.cond = dict(cond or {})             # normalised test text -> bool: only that arm is typed
+        self.passthrough = set(passthrough)      # calls that return their first argument as an index vector / array of the same space
         """params: name -> A(space) | I(dom, cod) | S ; sizes: name (of an integer) -> space whose length it is (np.zeros(n) lives there)"""
         self.env = dict(params)
         self.sizes = dict(sizes or {})
         self.report = report or (lambda kind, node, detail: None)
         self.resolved = 0
         self.ver = {}
+        self.attr_types = {}      # dotted attribute -> type at the end (for rules that chain methods of one class)
 
     # ------------------------------------------------------------------ helpers
     def _sel_name(self, node):
@@ -161,6 +164,20 @@ class MaskTyper:
                 return I(base.dom, sub)
             return None
         if isinstance(base, A):
+            t = self.ty(sl) if isinstance(sl, (ast.Call, ast.Name)) else None
+            if isinstance(t, tuple) and t and t[0] == "ix":
+                # a square array of space s x s indexed by np.ix_(I, J): both selectors must index s; the result is square in cod(I) when I == J
+                cods = []
+                for ix in t[1:]:
+                    if isinstance(ix, I):
+                        if base.s is not None and ix.dom is not None:
+                            self.resolved += 1
+                            if base.s != ix.dom:
+                                self.report("index-space", node, f"`{ast.unparse(node)[:100]}`: np.ix_ selector holds positions relative to {ix.dom} but the array lives in {base.s}")
+                        cods.append(ix.cod)
+                    else:
+                        cods.append(None)
+                return A(cods[0] if len(set(cods)) == 1 else None)
             if isinstance(sl, ast.Tuple):
                 return A(None)
             if isinstance(sl, ast.Constant) and isinstance(sl.value, int):
@@ -172,6 +189,14 @@ class MaskTyper:
     def call(self, node):
         d = dotted(node.func)
         args = node.args
+        if d in self.passthrough and args:
+            t = self.ty(args[0])
+            if isinstance(t, A) and t.s is not None:
+                return I(t.s, None)            # a boolean mask turned into positions
+            return t
+        if d == "np.ix_" and len(args) == 2:
+            i, j = self.ty(args[0]), self.ty(args[1])
+            return ("ix", i, j)
         if d in ELEMENTWISE and args:
             return self.ty(args[0])
         if d in REDUCE:
@@ -186,10 +211,13 @@ class MaskTyper:
             if isinstance(t, A):
                 return NZ(t.s) if d == "np.where" else I(t.s, None)
             return None
+        if d in ("np.array", "np.asarray") and args and isinstance(args[0], (ast.List, ast.Tuple)) and not args[0].elts:
+            return EMPTY
         if d in CTORS and args:
             a0 = args[0]
-            if isinstance(a0, ast.Name) and a0.id in self.sizes:
-                return A(self.sizes[a0.id])
+            d0 = dotted(a0)
+            if d0 in self.sizes:
+                return A(self.sizes[d0])
             return A(None)
         if d in ("np.zeros_like", "np.ones_like", "np.empty_like") and args:
             return self.ty(args[0])
@@ -202,6 +230,9 @@ class MaskTyper:
                 if at in SAME_METHODS:
                     return base
                 if at in REDUCE_METHODS:
+                    # a reduction along one axis of a square array keeps the space of the other axis
+                    if any(k.arg == "axis" for k in node.keywords) or args:
+                        return A(base.s)
                     return S
                 if at == "nonzero":
                     return NZ(base.s)
@@ -230,6 +261,8 @@ class MaskTyper:
             else:
                 cur = self.ty(st.target)
                 self._join(st, [cur, v], "augmented assignment")
+        elif isinstance(st, ast.If) and ast.unparse(st.test).replace(" ", "") in self.cond:
+            self.run(st.body if self.cond[ast.unparse(st.test).replace(" ", "")] else st.orelse)
         elif isinstance(st, ast.If):
             self.ty(st.test)
             env0 = dict(self.env)
@@ -241,7 +274,7 @@ class MaskTyper:
             merged = {}
             for k in set(env1) | set(env2):
                 a, b = env1.get(k, env0.get(k)), env2.get(k, env0.get(k))
-                merged[k] = a if _same(a, b) else (a if b is None and k not in env2 else (b if a is None and k not in env1 else None))
+                merged[k] = _join(a, b, k in env1, k in env2)
             self.env = merged
         elif isinstance(st, (ast.For, ast.While)):
             self.run(st.body)
@@ -276,7 +309,10 @@ class MaskTyper:
         elif isinstance(target, ast.Attribute):
             d = dotted(target)
             if d:
+                if isinstance(v, I) and v.cod is None and v.dom is not None:
+                    v = I(v.dom, f"{v.dom}/{d}")
                 self.env[d] = v
+                self.attr_types[d] = v
 
     def store(self, target, v, st):
         base = self.ty(target.value)
@@ -289,6 +325,27 @@ class MaskTyper:
             self.resolved += 1
             if sub != v.s:
                 self.report("store-space", st, f"`{ast.unparse(st)[:140]}`: the selector picks sub-space {sub} but the stored value lives in space {v.s}")
+
+
+EMPTY = "empty"        # a literal empty array: an empty selector / vector fits every space
+
+
+def _join(a, b, in1, in2):
+    if _same(a, b):
+        return a
+    if a == EMPTY:
+        return b
+    if b == EMPTY:
+        return a
+    if isinstance(a, I) and isinstance(b, I) and a.dom == b.dom:
+        return I(a.dom, a.cod if a.cod == b.cod else f"{a.dom}/?")
+    if isinstance(a, A) and isinstance(b, A):
+        return A(a.s if a.s == b.s else None)
+    if b is None and not in2:
+        return a
+    if a is None and not in1:
+        return b
+    return None
 
 
 def _same(a, b):
